@@ -76,9 +76,60 @@ def _key(e):
     return ("s:" + e[1]) if e[0] == "s" else f"n:{e[1]}"
 
 
+def _plain(e):
+    """a buffer the caller holds and re-uses (["h", slot, enc]) is, for the model, the value it holds at the call"""
+    if e[0] == "h":
+        return _plain(e[2])
+    if e[0] == "l":
+        return ["l", [_plain(x) for x in e[1]]]
+    if e[0] == "d":
+        return ["d", [[_plain(k), _plain(v)] for k, v in e[1]]]
+    return e
+
+
+def _in_domain(e, tags):
+    """the argument is of a kind the line protocol can express (the variants of c19.arg_variants mostly are not)"""
+    t = e[0]
+    if t not in tags:
+        return False
+    if t in ("b", "bl"):
+        return isinstance(e[1], str) and not set(e[1]) - set("01")
+    if t == "i":
+        return isinstance(e[1], int) and not isinstance(e[1], bool) and e[1] >= 0
+    if t in ("x", "xa", "s"):
+        return isinstance(e[1], str)
+    if t == "l":
+        return all(_in_domain(x, tags) for x in e[1])
+    return True
+
+
 def line_of(spec, py_result=None):
     """the driver line of a modelled call (without the S./P. prefix); None if the call is outside the model's domain"""
-    name, a = spec["ep"], spec["a"]
+    name, a = spec["ep"], [_plain(x) for x in spec["a"]]
+    if name.startswith("m.crc."):
+        if not all(_in_domain(x, ("b", "bl", "i", "l")) for x in a) or a[-1][0] not in ("b", "bl"):
+            return None
+        if name != "m.crc.shared" and (a[0][0] != "l" or len(a[0][1]) != 6 or a[1][0] != "i" or a[1][1] not in (0, 1)):
+            return None
+        if name == "m.crc.shared" and (a[0][0] != "i" or a[0][1] >= 4):
+            return None
+    elif name.startswith("m.ham."):
+        # the block codes are modelled on the 0/1 values; the bit order of the container is not an input of the model
+        if len(a) != 2 or not _in_domain(a[0], ("i",)) or not _in_domain(a[1], ("b",)) or a[0][1] >= (5 if name == "m.ham.cac" else 7):
+            return None
+    elif name == "m.fivebit":
+        if not _in_domain(a[0], ("x",)):
+            return None
+    elif name == "m.byteswap":
+        if not _in_domain(a[0], ("xa",)):
+            return None
+    elif name == "m.gettoken":
+        if not (_in_domain(a[0], ("i",)) and a[0][1] in (0, 1) and _in_domain(a[1], ("s", "i")) and a[2][0] == "l"
+                and all(p[0] == "l" and len(p[1]) == 2 and _in_domain(p[1][0], ("s", "i")) and (p[1][1][0] == "n" or _in_domain(p[1][1], ("i",))) for p in a[2][1])):
+            return None
+    elif name == "m.tms":
+        if not (_in_domain(a[0], ("x",)) and _in_domain(a[1], ("i",))):
+            return None
     if name == "m.crc.shared":
         d, le = _bits(a[1])
         return f"crc.shared {a[0][1]} {d} {le}"
